@@ -68,9 +68,9 @@ Prod(sets) == IF sets = <<>> THEN {<<>>}
 (***************************************************************************)
 (* 2. Schema language and the battery                                      *)
 (***************************************************************************)
-P(p)       == [c |-> "prim", p |-> p]
-I32 == P("i32")  I64 == P("i64")  U32 == P("u32")  U64 == P("u64")  F64 == P("f64")
-BOOL == P("bool")  STR == P("string")  VAL == P("value")  LEVEL == P("level")
+Prim(p)    == [c |-> "prim", p |-> p]
+I32 == Prim("i32")  I64 == Prim("i64")  U32 == Prim("u32")  U64 == Prim("u64")  F64 == Prim("f64")
+BOOL == Prim("bool")  STR == Prim("string")  VAL == Prim("value")  LEVEL == Prim("level")
 Opt(e)     == [c |-> "opt", e |-> e]
 Vec(e)     == [c |-> "vec", e |-> e]
 Map(k, v)  == [c |-> "map", key |-> k, val |-> v]
